@@ -116,7 +116,9 @@ _JOBS = []
 
 def job(i):
     seed, hist = _JOBS[i]
-    return sess_history(seed, hist)
+    s = sess_history(seed, hist)
+    s['replay'] = {'fn': 'harness.checks.c14:sess_history', 'seed': seed, 'kw': {'hist': list(hist)}}
+    return s
 
 
 def main():
@@ -140,9 +142,8 @@ def main():
         raise MachineryError(f'unexpected number of histories: {len(pairs.vp)} pairs, {len(sim.vp)} simulated')
     global _JOBS
     if a.replay_case:
-        case = a.replay_case['case']
-        raise MachineryError('replay: re-run the check with the same VERIF_SEED (histories are re-enumerated deterministically); '
-                             f"failing session seed={case.get('seed')}")
+        docs.validate_sessions(run, docs.replay_sessions(a.replay_case), relevant=docs.relevant_for(run.pid))
+        return run.finish()
     _JOBS = [(a.seed * 1000003 + i, h) for i, h in enumerate(hists)]
     sess = docs.build_sessions(job, range(len(_JOBS)))
     docs.selftest_session(next(s for s in sess if len(s['log']) > 10 and any(e['ev'] == 'call' and e['op'] == 'dumps' and not e['args']['hasto'] and not e['args']['hasfrom'] and e['res']['ok'] for e in s['log'])))
